@@ -96,7 +96,8 @@ def _tree_digest(root: Path) -> str:
 def check_projects(report: Report, tier: str) -> dict:
     pio = _pio()
     boards = sorted(pio.BOARD_TO_PLATFORM)
-    ports = ["COM3", "/dev/ttyACM0", "/dev/tty usb 0", "100%", "a;b", "#hash", "k=v", "[x]", "ü-port", "${sys}", "%(x)s", ""]
+    ports = ["COM3", "/dev/ttyACM0", "/dev/tty usb 0", "100%", "a;b", "#hash", "k=v", "[x]", "ü-port", "${sys}", "%(x)s", "",
+             "usb-{lib_section}-if00", "{port}", "{board}/{platform}", "{env_name}", "{}", "{0}", "{{x}}", "}{"]
     libs_alpha = ["Servo", "LiquidCrystal", "LiquidCrystal_I2C", ""]
     lib_lists: List[Optional[List[str]]] = [None]
     for k in range(0, 4):
@@ -173,6 +174,9 @@ def check_projects(report: Report, tier: str) -> dict:
             for port in ports:
                 for libs in lib_lists:
                     one(board, port, libs, sources[0]) if (tier == "thorough" or port in ports[:3] or libs is None) else None
+        for port in ports:
+            for libs in (None, ["Servo"], ["Servo", "LiquidCrystal"]):
+                one("uno", port, libs, sources[3])
         # library entries that share a prefix / differ only in a version pin, scope or URL: all lists of length <= 3
         rich_alpha = ["Servo", "Servo@^1.2.1", "Servo@1.0.0", "servo", "@scope/pkg", "@other/pkg", "owner/Servo", "Lib=https://example.org/lib.git", "https://example.org/lib.git#v1", ""]
         for k in range(0, 4 if tier == "thorough" else 3):
@@ -182,6 +186,19 @@ def check_projects(report: Report, tier: str) -> dict:
             for libs in itertools.product(rich_alpha[:6], repeat=3):
                 one("uno", "COM3", list(libs), sources[0])
         # histories: regenerate into the SAME project directory (same length / shorter / longer / identical sources)
+        # the same text with other line ends: the file on disk is always the source given LAST, byte for byte
+        for a_text, b_text in itertools.permutations(["a();\nb();\n", "a();\r\nb();\r\n", "a();\rb();\r", "a();\nb();", "a();\n\nb();\n"], 2):
+            one("uno", "COM3", ["Servo"], a_text)
+            one("uno", "COM3", ["Servo"], b_text, reuse=True)
+        # a main.cpp left behind by another tool
+        for stale in (b"a();\r\nb();\r\n", b"\xff\xfe not utf-8", b""):
+            proj0 = base / "proj"
+            if proj0.exists():
+                shutil.rmtree(proj0)
+            (proj0 / "src").mkdir(parents=True)
+            (proj0 / "src" / "main.cpp").write_bytes(stale)
+            (proj0 / "platformio.ini").write_bytes(b"[env:old]\nboard = old\n")
+            one("uno", "COM3", None, "a();\nb();\n", reuse=True)
         variants = ["pinMode(12, OUTPUT); delay(500);\n", "pinMode(13, OUTPUT); delay(250);\n", "pinMode(13, OUTPUT); delay(25);\n", "é" * 10 + "\n", "è" * 10 + "\n", "ab" * 10 + "\n", ""]
         for first, second in itertools.product(variants, repeat=2):
             one("uno", "COM3", None, first)
